@@ -188,17 +188,15 @@ theorem C04_btls_handshake_watched (s : St) (hi : WInv s) (hs : s.state = .hands
     connUpdate s cond hp = (false, s.sslWants, true, false) ∧ s.sslWants ≠ 0 := by
   have hw := rs_cases (hi.hsWants hs)
   refine ⟨?_, by omega⟩
-  unfold connUpdate
-  simp only [hs]
-  rw [if_neg (by omega)]
+  have hne : ¬ s.sslWants = 0 := by omega
+  unfold connUpdate connUpdateCore
+  simp [hs, hne]
 
-/-- ready connection, non-zero awaited condition: either the bell rings (the fd is readable at once) or the TCP
-socket below is asked to watch something - never neither -/
-theorem C04_btls_waiter_has_source (s : St) (hi : WInv s) (hs : s.state = .ready) (cond : Nat) (hp : Bool)
+theorem core_waiter (s : St) (hi : WInv s) (hs : s.state = .ready) (cond : Nat) (hp : Bool)
     (hc : cond = 1 ∨ cond = 2 ∨ cond = 3) :
-    (connUpdate s cond hp).2.2.2 = false ∧
-    ((connUpdate s cond hp).1 = true ∨ ((connUpdate s cond hp).2.1 ≠ 0 ∧ (connUpdate s cond hp).2.2.1 = true)) := by
-  unfold connUpdate
+    (connUpdateCore s cond hp).2.2.2 = false ∧
+    ((connUpdateCore s cond hp).1 = true ∨ ((connUpdateCore s cond hp).2.1 ≠ 0 ∧ (connUpdateCore s cond hp).2.2.1 = true)) := by
+  unfold connUpdateCore
   simp only [hs]
   by_cases h0 : s.sslCondition = 0
   · rcases hc with hc | hc | hc <;> cases hp <;>
@@ -209,16 +207,54 @@ theorem C04_btls_waiter_has_source (s : St) (hi : WInv s) (hs : s.state = .ready
     rcases hc with hc | hc | hc <;> rcases hw with hw | hw <;> rcases hcd with hcd | hcd <;> cases hp <;>
       simp [hc, hw, hcd, RECEIVABLE, SENDABLE, Generated.XCM_SO_RECEIVABLE, Generated.XCM_SO_SENDABLE]
 
+/-- ready connection, non-zero awaited condition: either the bell rings (the fd is readable at once) or the TCP
+socket below is asked to watch something - never neither -/
+theorem C04_btls_waiter_has_source (s : St) (hi : WInv s) (hs : s.state = .ready) (cond : Nat) (hp : Bool)
+    (hc : cond = 1 ∨ cond = 2 ∨ cond = 3) :
+    (connUpdate s cond hp).2.2.2 = false ∧
+    ((connUpdate s cond hp).1 = true ∨ ((connUpdate s cond hp).2.1 ≠ 0 ∧ (connUpdate s cond hp).2.2.1 = true)) := by
+  obtain ⟨h1, h2, h3⟩ := connUpdate_core s cond hp
+  obtain ⟨c1, c2⟩ := core_waiter s hi hs cond hp hc
+  rw [h1, h2]
+  refine ⟨c1, ?_⟩
+  rcases c2 with c2 | ⟨c2, c3⟩
+  · exact Or.inl c2
+  · exact Or.inr ⟨h3 c2, c3⟩
+
+/-- output that XCM accepted and still retains (SSL_write could not complete) is never left without a source of
+wake-up, whatever the application awaits - 0 included: either the bell rings or the TCP socket below is watched
+for what the last flush attempt needed (SENDABLE if unknown), and the next send/finish call flushes -/
+theorem C04_btls_retained_output_watched (s : St) (hs : s.state = .ready) (hp : s.pend ≠ []) (cond : Nat) (pending : Bool) :
+    (connUpdate s cond pending).1 = true ∨
+    ((connUpdate s cond pending).2.1 ≠ 0 ∧ (connUpdate s cond pending).2.2.1 = true) := by
+  have hne : (s.pend.isEmpty = true) = False := by simp [hp]
+  have hx : (if s.pendWants ≠ 0 then s.pendWants else SENDABLE) ≠ 0 := by
+    split
+    · assumption
+    · simp [SENDABLE, Generated.XCM_SO_SENDABLE]
+  unfold connUpdate
+  simp only [hs, hne, not_false_eq_true, and_self, if_true]
+  have hcore : (connUpdateCore s cond pending).1 = true ∨ (connUpdateCore s cond pending).2.2.1 = true := by
+    unfold connUpdateCore
+    simp only [hs]
+    repeat' split
+    all_goals simp
+  rcases hcore with h | h
+  · exact Or.inl h
+  · exact Or.inr ⟨fun h2 => hx (Nat.or_eq_zero_iff.mp h2).2, h⟩
+
 /-- closed or failed: the bell rings, so the application is woken to collect the terminal condition -/
 theorem C04_btls_terminal_rings (s : St) (ht : Terminal s) (cond : Nat) (hp : Bool) :
     (connUpdate s cond hp).1 = true := by
-  unfold connUpdate
+  rw [(connUpdate_core s cond hp).1]
+  unfold connUpdateCore
   rcases ht with h | ⟨e, h⟩ <;> simp [h]
 
 /-- decrypted bytes already sitting in OpenSSL make a RECEIVABLE waiter readable immediately -/
 theorem C04_btls_pending_rings (s : St) (hs : s.state = .ready) (cond : Nat) (hc : cond = 1 ∨ cond = 3) :
     (connUpdate s cond true).1 = true := by
-  unfold connUpdate
+  rw [(connUpdate_core s cond true).1]
+  unfold connUpdateCore
   rcases hc with hc | hc <;> simp [hs, hc, RECEIVABLE, Generated.XCM_SO_RECEIVABLE]
 
 end XcmModel.C04btls
